@@ -101,6 +101,7 @@ structure Conn where
   pc    : PC
   entry : Bool          -- `transports[connection]` exists and belongs to this task
   cbs   : List Cb       -- done-callbacks not yet run, in registration order
+  late  : Bool          -- ghost: the layer asked for this connection after handle_client had collected the transports to wait for
   nSC : Nat
   nSD : Nat
   nSE : Nat
@@ -251,13 +252,13 @@ def isLate : HPC → Bool
 def keyFree (conns : List Conn) (key : Nat) : Bool :=
   conns.all (fun c => !(c.entry && c.key == key))
 
-def newConn (key : Nat) (addr : Option Nat) : Conn :=
-  { key, req := addr, want := none, addr := none, pc := .created, entry := true, cbs := [.release], nSC := 0, nSD := 0, nSE := 0, nSX := 0 }
+def newConn (key : Nat) (addr : Option Nat) (late : Bool) : Conn :=
+  { key, req := addr, want := none, addr := none, late, pc := .created, entry := true, cbs := [.release], nSC := 0, nSD := 0, nSE := 0, nSX := 0 }
 
 def applyCmd (s : St) : Cmd → Option St
   | .opn key addr =>
     if keyFree s.conns key then
-      some { s with conns := s.conns ++ [newConn key addr], lateOpen := s.lateOpen || isLate s.hpc }
+      some { s with conns := s.conns ++ [newConn key addr (isLate s.hpc)], lateOpen := s.lateOpen || isLate s.hpc }
     else none
   | .spawn => some { s with hooks := s.hooks ++ [.created] }
 
